@@ -34,7 +34,7 @@ def cases(draw):
     spec = draw(models.model_specs(names=draw(st.sampled_from(["ident", "free"])), n_state=(1, 4), n_control=(0, 3),
                                    n_calib=(0, 2), n_sensors=(1, 3), n_readings=(1, 4), depth=2, sensor_depth=draw(st.sampled_from([2, 2, 3])), template="mixed"))
     pts = draw(models.point_sequences(spec, 5, dt=("pos", "neg")))
-    return {"model": spec, "points": pts}
+    return {"model": spec, "points": pts, "shadow_after": draw(st.sampled_from([False, False, True]))}
 
 
 def check_matrix(ctx, spec, what, got, rows, cols, ref, shape_expected):
@@ -69,6 +69,16 @@ def case(spec, ctx):
     with ctx.watchdog(20):
         with ctx.formak("compile_ekf", spec):
             f = models.compile_py_ekf(m)
+        if spec.get("shadow_after"):
+            # a second filter with the same symbols and the same sensor / reading names but other expressions is built in
+            # the same process AFTER this one; this one is then used: instances must not share compiled state
+            try:
+                models.compile_py_ekf(models.shadow_of(m, "sensors"))
+                ctx.event("shadow_filter_built_after")
+            except ctxmod.CaseTimeout:
+                raise
+            except Exception:
+                ctx.event("shadow_not_accepted")
 
     if [str(s) for s in f.arglist_state] != st_:
         ctx.fail("layout:arglist_state", f"{f.arglist_state} vs sorted {st_}", spec)
